@@ -475,6 +475,19 @@ def insertAt (e : Env) : Nat → Hd → Nibs → Nibs → Bytes → Death → Re
 /-- indices of the non-nil children (the code stops after two) -/
 def usedIdx (cs : Nib → Hd) : List Nib := (List.finRange 16).filter (fun i => !(cs i).isNone)
 
+/-- `fix`: the row of a cached child that is merged into its parent is scheduled for deletion -/
+def childDeath (stored : Hd) (childPre : Nibs) (d : Death) : Death :=
+  match stored.cached with
+  | some h => rowKey childPre h :: d
+  | none => d
+
+/-- `fix`: the branch `pk` without value and its only child `stored` at index `i` become one node -/
+def fixMerge (pk : Nibs) (i : Nib) (stored : Hd) (d : Death) : Res (Hd × Death) :=
+  match stored with
+  | .leaf _ cpk cv => .ok (.leaf none (pk ++ i :: cpk) cv, d)
+  | .branch _ cpk cv ccs => .ok (.branch none (pk ++ i :: cpk) cv ccs, d)
+  | _ => .panic
+
 /-- `fix(branch, key)` on the branch `(pk, bv, cs)` at path `pre`: a branch without children becomes
     a leaf, a branch without value and with one child is merged with that child (loaded from the
     database when it is persisted; the row of a cached child is scheduled for deletion) -/
@@ -483,16 +496,10 @@ def fix (e : Env) (pre pk : Nibs) (bv : Option DVal) (cs : Nib → Hd) (d : Deat
   | [], none => .panic    -- "branch with no subvalues. Something went wrong."
   | [], some v => .ok (.leaf none pk v, d)
   | [i], none =>
-    let childPre := pre ++ pk ++ [i]
-    (match e.resolve childPre (cs i) with
+    (match e.resolve (pre ++ pk ++ [i]) (cs i) with
       | .err => .err
       | .panic => .panic
-      | .ok stored =>
-        let d' := match stored.cached with | some h => rowKey childPre h :: d | none => d
-        match stored with
-        | .leaf _ cpk cv => .ok (.leaf none (pk ++ i :: cpk) cv, d')
-        | .branch _ cpk cv ccs => .ok (.branch none (pk ++ i :: cpk) cv ccs, d')
-        | _ => .panic)
+      | .ok stored => fixMerge pk i stored (childDeath stored (pre ++ pk ++ [i]) d))
   | _, _ => .ok (.branch none pk bv cs, d)
 
 /-- what `inspect` does with `deleteNode` on the stored node `old` -/
